@@ -5,6 +5,7 @@ package main
 // results and post-state are dumped as JSON and the violated clause is re-evaluated on them.
 
 import (
+	"encoding/hex"
 	"encoding/json"
 	"fmt"
 	"go/types"
@@ -267,6 +268,8 @@ func genCPUCase(w *World, idx int, cs cpuReplayCase) string {
 			conv = append(conv, fmt.Sprintf("uint64(r%d)", i))
 		} else if _, isSt := rs.At(i).Type().Underlying().(*types.Struct); isSt {
 			conv = append(conv, fmt.Sprintf("r%d", i))
+		} else if isByteSlice(rs.At(i).Type()) {
+			conv = append(conv, fmt.Sprintf("fmt.Sprintf(\"hex:%%x\", []byte(r%d))", i))
 		} else {
 			conv = append(conv, "0")
 			lhs[i] = "_"
@@ -390,6 +393,27 @@ func judgeCPU(w *World, cs cpuReplayCase, o map[string]interface{}, rep map[stri
 				args = append(args, Ptr{Obj: obj})
 			case "op":
 				args = append(args, Scalar{Const(8, uint64(cs.op))})
+			case "ram", "ram1":
+				// the initial memory image of the model, for old(ram[...]) only (the post-state has no such object:
+				// a clause reading memory after the call is not judged here)
+				pt := p.Type().(*types.Pointer).Elem()
+				obj := x.newObj(pt, p.Name())
+				img := ConstArr(ArrS(BV(64), BV(8)), Const(8, 0))
+				for k, v := range cs.r.Model {
+					if strings.HasPrefix(k, "mem!") {
+						if i := strings.Index(k, "["); i > 0 {
+							a, err := strconv.ParseUint(strings.TrimSuffix(k[i+1:], "]"), 0, 64)
+							if err == nil && a < 1<<24 {
+								img = Store(img, Const(64, a), Const(8, v&0xff))
+							}
+						}
+					}
+				}
+				rk, _ := modelArg(cs.r.Model, "cpu.RK")
+				pc, _ := modelArg(cs.r.Model, "cpu.PC")
+				img = Store(img, Const(64, (rk&0xff)<<16|(pc&0xffff)), Const(8, uint64(cs.op)))
+				pre.Heap[obj.ID] = ArrayT{T: img, Len: 1 << 24, Elem: types.Typ[types.Uint8]}
+				args = append(args, Ptr{Obj: obj})
 			default:
 				if isScalarType(p.Type()) {
 					wd, _, _ := bitsOf(p.Type())
@@ -406,6 +430,19 @@ func judgeCPU(w *World, cs cpuReplayCase, o map[string]interface{}, rep map[stri
 			for i := 0; i < rs.Len() && i < len(rl); i++ {
 				f, _ := rl[i].(float64)
 				t := rs.At(i).Type()
+				if hs, isS := rl[i].(string); isS && strings.HasPrefix(hs, "hex:") && isByteSlice(t) {
+					raw, _ := hex.DecodeString(hs[4:])
+					arrT := types.NewArray(types.Typ[types.Uint8], int64(len(raw)))
+					obj := x.newObj(arrT, fmt.Sprintf("ret%d", i+1))
+					img := ConstArr(ArrS(BV(64), BV(8)), Const(8, 0))
+					for j, bt := range raw {
+						img = Store(img, Const(64, uint64(j)), Const(8, uint64(bt)))
+					}
+					post.Heap[obj.ID] = ArrayT{T: img, Len: int64(len(raw)), Elem: types.Typ[types.Uint8]}
+					n := Const(64, uint64(len(raw)))
+					rets = append(rets, SliceV{Obj: obj, Off: Const(64, 0), Len: n, Cap: n})
+					continue
+				}
 				if sm, isM := rl[i].(map[string]interface{}); isM {
 					rets = append(rets, concreteStruct(x, t, "", func(name string) (uint64, bool) {
 						if fv, ok := sm[name].(float64); ok {
@@ -472,4 +509,13 @@ func concreteStruct(x *Exec, t types.Type, path string, get func(string) (uint64
 		s.F = append(s.F, x.zero(f.Type()))
 	}
 	return s
+}
+
+func isByteSlice(t types.Type) bool {
+	sl, ok := t.Underlying().(*types.Slice)
+	if !ok {
+		return false
+	}
+	b, ok := sl.Elem().Underlying().(*types.Basic)
+	return ok && b.Kind() == types.Uint8
 }
